@@ -142,7 +142,7 @@ def judge(case):
 
 
 def shards(tier):
-    n = 8 if tier == "quick" else 200
+    n = 12 if tier == "quick" else 200
     return [{"id": f"{la}{lb}", "la": la, "lb": lb, "n": n, "cost": n * (1 + la + lb)}
             for la in range(5) for lb in range(5)]
 
